@@ -10,3 +10,4 @@ import InToto.Properties.C18
 #print axioms InToto.C18.no_parameters
 #print axioms InToto.C18.invalid_name_rejected
 #print axioms InToto.C18.examples
+#print axioms InToto.C18.facts_name_regexp
